@@ -9,5 +9,6 @@ CONSTANTS
   RuleTypes = {4}
   LigLens = {1, 2}
   Kinds = {"cff"}
+  TextSel = "none"
   Flags = FALSE
   Quiet = TRUE
